@@ -142,11 +142,17 @@ def run_case(case, seed):
         viol.append(dict(oracle=oracle, key=dict(site="mri.rf.trajgrad.min_trap_grad", when=w), detail=detail + " | " + str(case)))
     ok = False
     try:
+        first, _ = tg.trap_grad(area, gmax, dgdt, dt)
+        if isinstance(first, np.ndarray) and first.flags.writeable:
+            first *= -1   # e.g. a caller building the negative lobe in place; the next design must not be affected
         trap, rp = tg.trap_grad(area, gmax, dgdt, dt)
         ok = check_wave("trap_grad", trap, rp, area, gmax, dgdt, dt, V1)
     except Exception as e:
         V1("raised", "trap_grad raised %s: %s" % (type(e).__name__, str(e)[:120]))
     try:
+        first2, _ = tg.min_trap_grad(area, gmax, dgdt, dt)
+        if isinstance(first2, np.ndarray) and first2.flags.writeable:
+            first2 *= -1
         trap2, rp2 = tg.min_trap_grad(area, gmax, dgdt, dt)
         ok = check_wave("min_trap_grad", trap2, rp2, area, gmax, dgdt, dt, V2, flat_only=True) or ok
     except Exception as e:
